@@ -135,6 +135,21 @@ def check_lattice(case, rec):
                     out, ok = None, True
             if not ok:
                 rec.fail('precedence-via-expand:%s' % kind, 'layers %s: expand output %r does not show the value of layer %d' % (bits, out, winner))
+            if typ == 'markup' and ok:
+                # the same winner when the call also carries a wrap text (the text is one more key of the call layer, not a reason to drop the others)
+                ut = dict(user, text='WT')
+                with guard():
+                    if kind == 'options':
+                        out = expand('div>p', ut, glob)
+                        ok = exp in out and not any(('~%d~' % k) in out for k in range(6) if k != winner)
+                    elif kind == 'snippets':
+                        out = expand('zzs', ut, glob)
+                        ok = ('lay%d' % winner) in out and not any(('lay%d' % k) in out for k in range(6) if k != winner)
+                    else:
+                        out = expand('p{${zzv}}', ut, glob)
+                        ok = ('var%d' % winner) in out and not any(('var%d' % k) in out for k in range(6) if k != winner)
+                if not ok or 'WT' not in out:
+                    rec.fail('precedence-via-expand:%s:with-text' % kind, 'layers %s + wrap text: expand output %r does not show the value of layer %d (or lost the text)' % (bits, out, winner))
         # immutability
         if (dc, sc) != snap_tables:
             rec.fail('builtin-table-modified', 'DEFAULT_CONFIG/SYNTAX_CONFIG changed by Config()/expand()')
@@ -244,6 +259,15 @@ def check_natural(case, rec):
             out = expand('doc', user, glob)
         if ('"%s"' % exp) not in out or any(('"<%d>"' % k) in out for k in range(6) if '<%d>' % k != exp):
             rec.fail('precedence-via-expand:variables:snippet-body', '%s/%s expand("doc") does not show %s=%r (layers %s): %r' % (typ, syntax, key, exp, bits, core.short(out, 200)))
+        with guard():
+            out = expand('doc', dict(user, text='WT'), glob)
+        if ('"%s"' % exp) not in out or any(('"<%d>"' % k) in out for k in range(6) if '<%d>' % k != exp):
+            rec.fail('precedence-via-expand:variables:snippet-body:with-text', '%s/%s expand("doc") with a wrap text does not show %s=%r (layers %s): %r' % (typ, syntax, key, exp, bits, core.short(out, 200)))
+    if kind == 'snippets' and typ == 'markup' and exp is not None and winner >= 3:
+        with guard():
+            out = expand(key, dict(user, text='WT'), glob)
+        if ('nat%d' % winner) not in out:
+            rec.fail('precedence-via-expand:snippets:with-text', '%s/%s expand(%r) with a wrap text = %r, expected the layer-%d definition' % (typ, syntax, key, out, winner))
     if kind == 'options' and key == 'output.selfClosingStyle':
         with guard():
             out = expand('br', user, glob)
@@ -286,7 +310,117 @@ def check_unknown(case, rec):
     rec.nontrivial()
 
 
-CHECKS = {'lattice': check_lattice, 'natural': check_natural, 'unknown': check_unknown}
+# ---- option effects: every option is observed through expand() under every assignment of {absent, v1, v2} to the three caller layers
+# (key, v1, v2, abbreviation, fixed call-level options, wrap text allowed)
+EFFECTS_M = [
+    ('output.tagCase', 'upper', 'lower', 'Div>P', {}, True),
+    ('output.attributeCase', 'upper', 'lower', 'p[Title=x]', {}, True),
+    ('output.attributeQuotes', 'single', 'double', 'p[title=x]', {}, True),
+    ('output.indent', '  ', '      ', 'div>p', {}, True),
+    ('output.newline', '\r\n', '\r', 'div>p', {}, True),
+    ('output.baseIndent', '  ', '\t\t', 'div>p', {}, True),
+    ('output.format', False, True, 'div>p', {}, True),
+    ('output.inlineBreak', 2, 5, 'div>em+em+em', {}, False),
+    ('output.compactBoolean', True, False, 'input[disabled.]', {}, False),
+    ('output.booleanAttributes', ['zza'], ['zzb'], 'p[zza zzb]', {}, True),
+    ('output.reverseAttributes', True, False, 'a[title=x title=y]', {}, True),
+    ('output.selfClosingStyle', 'xhtml', 'xml', 'div>br', {}, False),
+    ('output.formatLeafNode', True, False, 'div>p', {}, False),
+    ('output.formatSkip', ['p'], ['div'], 'div>p>em+section', {}, False),
+    ('output.formatForce', ['em'], ['span'], 'p>em+span', {}, True),
+    ('inlineElements', ['section'], ['article'], '.a>section>.b', {}, True),
+    ('markup.attributes', {'class': 'klass'}, {'class': 'cn'}, 'p.a', {}, True),
+    ('markup.valuePrefix', {'class': 'styles'}, {'class': 'st'}, 'p.a', {}, True),
+    ('markup.href', False, True, 'a', {}, 'http://x.io'),
+    ('comment.enabled', True, False, 'div>p#a', {}, True),
+    ('comment.after', ' <!-- E1 [#ID] -->', ' <!-- E2 -->', 'div>p#a', {'comment.enabled': True}, True),
+    ('comment.before', '<!-- B1 -->', '<!-- B2 -->', 'div>p#a', {'comment.enabled': True}, True),
+    ('comment.trigger', ['title'], ['lang'], 'p[title=x]+p[lang=y]', {'comment.enabled': True, 'comment.after': '<!-- C -->'}, True),
+    ('bem.enabled', True, False, 'div.b>p.-e', {}, True),
+    ('bem.element', '--', '___', 'div.b>p.-e', {'bem.enabled': True}, True),
+    ('bem.modifier', '~~', '==', 'div.b_m', {'bem.enabled': True}, True),
+    ('jsx.enabled', True, False, 'div#a.{x}', {}, True),
+]
+EFFECTS_C = [
+    ('stylesheet.between', '::', ' = ', 'm10', {}, False),
+    ('stylesheet.after', ';;', '', 'm10', {}, False),
+    ('stylesheet.intUnit', 'pt', 'rem', 'm10', {}, False),
+    ('stylesheet.floatUnit', 'pt', 'rem', 'm1.5', {}, False),
+    ('stylesheet.shortHex', False, True, 'c#fc0', {}, False),
+    ('stylesheet.unitAliases', {'x': 'zz'}, {'x': 'yy'}, 'm10x', {}, False),
+    ('stylesheet.unitless', ['margin'], ['padding'], 'm10+p10', {}, False),
+    ('stylesheet.json', True, False, 'm10', {}, False),
+    ('stylesheet.jsonDoubleQuotes', True, False, 'pos:a', {'stylesheet.json': True}, False),
+    ('stylesheet.fuzzySearchMinScore', 0.99, 0.0, 'mrg10', {}, False),
+    ('stylesheet.keywords', ['zzk'], ['zzj'], 'm:zz', {}, False),
+    ('output.newline', '\r\n', '\r', 'm10+p10', {}, False),
+    ('output.format', False, True, 'm10+p10', {}, False),
+    ('output.field', None, None, None, {}, False),
+]
+
+
+def check_effect(case, rec):
+    typ, syntax, key, v1, v2, abbr, fixed, text = case['type'], case['syntax'], case['key'], case['v1'], case['v2'], case['abbr'], case['fixed'], case.get('text')
+    vals = {1: v1, 2: v2}
+
+    def ex(gt, gs, call):
+        user = {'type': typ, 'syntax': syntax, 'options': dict(fixed)}
+        if text:
+            user['text'] = text
+        if call:
+            user['options'][key] = copy.deepcopy(vals[call])
+        glob = {}
+        if gt:
+            glob.setdefault(typ, {}).setdefault('options', {})[key] = copy.deepcopy(vals[gt])
+        if gs:
+            glob.setdefault(syntax, {}).setdefault('options', {})[key] = copy.deepcopy(vals[gs])
+        su, sg = copy.deepcopy(user), copy.deepcopy(glob)
+        rec.evals()
+        with guard():
+            out = expand(abbr, user, glob)
+        su.pop('text', None)
+        u2 = dict(user)
+        u2.pop('text', None)
+        if u2 != su or glob != sg:
+            rec.fail('caller-config-modified', 'option %r: expand(%r) changed the caller\'s dictionaries' % (key, abbr))
+        return out
+    D = ex(0, 0, 0)
+    R = {0: D, 1: ex(0, 0, 1), 2: ex(0, 0, 2)}
+    # (one of the two values may be the default of the syntax — `jsx.enabled` under jsx — so only their difference is required; were the call layer
+    # ignored both would equal the default output)
+    if R[1] == R[2]:
+        rec.fail('option-without-effect:%s' % key, '%s/%s: %r = %r and = %r give the same expand(%r) = %r' % (typ, syntax, key, v1, v2, abbr, R[1]))
+        return
+    if text and text not in R[1].replace('"', ' ').replace('>', ' ').replace('<', ' ') and text not in R[1]:
+        rec.fail('option-effect:text-lost:%s' % key, 'wrap text %r missing from %r' % (text, R[1]))
+    rec.nontrivial()
+    rec.cls('option-effect/%s%s' % (typ, '+text' if text else ''))
+    for gt, gs, call in itertools.product((0, 1, 2), repeat=3):
+        if (gt, gs) == (0, 0):
+            continue
+        win = call or gs or gt
+        out = ex(gt, gs, call)
+        if out != R[win]:
+            lay = {0: 'absent', 1: repr(v1), 2: repr(v2)}
+            rec.fail('precedence-via-expand:option-effect:%s' % key,
+                     '%s/%s option %r: global-type layer %s, global-syntax layer %s, call %s → expand(%r%s) = %r, expected the output of the most specific layer (%s): %r'
+                     % (typ, syntax, key, lay[gt], lay[gs], lay[call], abbr, ' + wrap text' if text else '', out, lay[win], R[win]))
+            return
+
+
+def effect_cases():
+    for typ, table, syntaxes in (('markup', EFFECTS_M, ('html', 'xml', 'jsx', 'nosuch')), ('stylesheet', EFFECTS_C, ('css', 'stylus', 'nosuch'))):
+        for key, v1, v2, abbr, fixed, text in table:
+            if abbr is None:
+                continue
+            for syn in syntaxes:
+                if not isinstance(text, str):
+                    yield {'type': typ, 'syntax': syn, 'key': key, 'v1': v1, 'v2': v2, 'abbr': abbr, 'fixed': fixed, 'text': None}
+                if text:
+                    yield {'type': typ, 'syntax': syn, 'key': key, 'v1': v1, 'v2': v2, 'abbr': abbr, 'fixed': fixed, 'text': text if isinstance(text, str) else 'WT'}
+
+
+CHECKS = {'effect': check_effect, 'lattice': check_lattice, 'natural': check_natural, 'unknown': check_unknown}
 
 
 def run(ctx):
@@ -309,4 +443,6 @@ def run(ctx):
                 yield {'kind': kind, 'type': typ, 'syntax': syntax, 'key': key, 'caller': list(caller)}
     ctx.run_cases('natural', natural())
     ctx.exhaustive('%d natural keys of the shipped tables × 2^3 caller layers' % len(NATURAL))
+    ctx.run_cases('effect', effect_cases())
+    ctx.exhaustive('%d markup and %d stylesheet options observed through expand() under all 3^3 assignments of {absent, v1, v2} to the global-type, global-syntax and call layers, with and without a wrap text' % (len(EFFECTS_M), len(EFFECTS_C) - 1))
     ctx.run_cases('unknown', ({'type': t, 'syntax': s} for t in ('markup', 'stylesheet') for s in ['nosuch', 'foo-bar', 'XML', '', 'x' * 40, 'html5', 'postcss']))
